@@ -189,6 +189,8 @@ def main():
     args = ap.parse_args()
     seed = int(os.environ.get('VERIF_SEED', '0') or 0)
     tier = args.tier if args.tier in ('quick', 'thorough') else 'quick'
+    os.environ['VERIF_TIER'] = tier   # the bounded searches enlarge their bounds in the thorough tier
+    os.environ['VERIF_SEED'] = str(seed)
 
     if args.rebaseline:
         return registry.rebaseline(WORK)
@@ -241,6 +243,8 @@ def main():
                     r['reason'] = 'resource limit on %s and no failing input found' % [d.get('function') for d in r['failed']]
                     continue
                 violations.append((r, wit))
+            elif r['status'] == 'undecided' and r.get('bounded'):
+                undecided.append(r)
             elif r['status'] == 'undecided':
                 # The verifier could not process the unit (changed code uses a construct outside its reach, or an anchor
                 # was lost).  Bounded stand-in, labelled as such: search for a concrete failing input on the real code.
